@@ -12,5 +12,31 @@ CLAIMS = {
                 text="Every configuration of <=3 hits (9 kinds, all intervals, all registry orders, depth budgets -1..3, 4 recursion modes) over a 4/5-byte text, and the shipped decoders' hit streams on every token sequence of the scan-level families, is executed on the real engine and must produce exactly the model's tree. Exhaustive within the bound; right level because the engine's behaviour depends only on order/overlap/kind of a handful of hits.",
                 note="Trusted: the 40-line reference machine (refs/engine_model.py), CPython sorted() stability. Bound: K<=3 (K=4 in sort order only), N<=5."),
 }
+CLAIMS.update({
+    "C01": dict(engine="seqx+streams", design_ref="DESIGN.md 3 (E1), 4 (C01)",
+                technique="bounded-exhaustive BFS over token sequences of per-decoder alphabets, at scan() level and at decoder level, plus structured PE/byte-array/number generators with every truncation point",
+                text="Every byte string spelled by <=L tokens of 10 scan-level and 12 decoder-level alphabets (taken from the literals the decoders' regexes distinguish), every PE header variant x every truncation length, every chr() argument 0..99999, every xor key 0..999, is scanned / fed to the decoder under a no-progress watchdog; any exception of any type or a hang is a violation, and flatten/iteration/summary/JSON views must complete on every result. Exhaustive for the bound; totality defects are local interactions of 2-5 tokens.",
+                note="Cannot reach inputs longer than the bound or super-linear regex time on long inputs. Hangs inside C code are only seen by the pool stall timer."),
+    "C03": dict(engine="hitx", design_ref="DESIGN.md 4 (C03)",
+                technique="explicit-state enumeration of hit configurations + exhaustive token-sequence scans, structural monitor on every node of every tree",
+                text="Well-formedness (root fields, parent pointers by identity, single occurrence, pre-order iteration, 0<=start<=end<=len(parent.value)) is checked on every node of every tree produced by all hit configurations within the bound (synthetic registries, incl. decoder-supplied children) and by the shipped decoders on every token sequence of the scan-level families.",
+                note="Bound as C06 plus the scan-level families; two spans pinned by tests/test_decoders/test_shell.py are known findings matched by cause predicate."),
+    "C04": dict(engine="hitx", design_ref="DESIGN.md 4 (C04)",
+                technique="explicit-state enumeration of hit configurations; per-hit provenance recorded by registry wrappers and compared after the scan",
+                text="For every hit object kept in any explored tree the sum of context start offsets, the span length and the original slice are compared with what the decoder reported at return time.",
+                note="Wrappers identify hits by object identity; decoder-supplied children are excluded."),
+    "C05": dict(engine="hitx", design_ref="DESIGN.md 4 (C05)",
+                technique="explicit-state enumeration of hit configurations; laminarity and suppression monitors on every engine-built child list",
+                text="Every child list the engine builds in every explored execution must have non-decreasing starts and strictly increasing ends; no hit may be kept inside a decoded hit of the same search, and a hit inside an open context may not be attached beside or above it.",
+                note="Engine-built vs decoder-supplied lists are separated by wrapper provenance."),
+    "C07": dict(engine="hitx", design_ref="DESIGN.md 4 (C07)",
+                technique="exhaustive enumeration of configurations x every depth limit; ladder comparison tree(k) vs tree(k+1) minus deepest pass",
+                text="Every configuration/input is scanned at every depth limit of a range including negative values and values beyond the recursion actually possible; decoder invocations are logged with their recursion level (must be < k), and tree(k) must equal tree(k+1) with the level-k pass removed. Always-decodable registries (rd, rk, dT) check termination.",
+                note="Recursion level is read as the number of scan_node activations on the stack."),
+    "C08": dict(engine="hitx", design_ref="DESIGN.md 4 (C08)",
+                technique="exhaustive enumeration; differential re-scan of every decoded node's value on a fresh scanner",
+                text="For every decoded node without decoder-supplied sub-structure in every explored tree, the children must equal those of an isolated scan_node(Node(type,value), remaining depth).",
+                note="Assumes decoders are pure (C09 checks that)."),
+})
 NOT_APPLICABLE = {pid: "check not built yet (work in progress; will be claimed or justified before the end)" for pid in
-                  ["C01","C02","C03","C04","C05","C07","C08","C09","C10","C11","C12","C13","C14","C15","C16","C17","C18","C19","C20"]}
+                  ["C02","C09","C10","C11","C12","C13","C14","C15","C16","C17","C18","C19","C20"]}
